@@ -158,6 +158,9 @@ inductive Op
   | crashsave                       -- SaveVersion whose batch Write is lost; the process dies
   | crashprune (to : Ver)           -- PruneVersionsTo whose batch Write is lost; the process dies
   | crashopen (fast : Bool) (n : Nat) -- Load() on a fresh handle; only the first n batch Writes land; the process dies
+  | delstamp                        -- the ADR's operator remediation: node down, stamp key deleted by hand
+  | crashimport (n : Nat)           -- Import(latest+1) on a fresh fast-on handle (dropFastIndex: stamp delete, then the
+                                    -- clear chunk); only the first n batch Writes land; abandoned, the process dies
   | dump
   | stress
 
@@ -225,6 +228,14 @@ def fillW (h : Handle) (d : DB) : DB := { d with fast := h.work, stamp := some h
 there is something to clear), then all entries of the loaded root + the stamp. -/
 def rebuildWrites (db : DB) (h : Handle) : List (DB → DB) :=
   (if db.fast.isEmpty then [] else [clearW]) ++ [fillW h]
+
+/-- `dropFastIndex`'s first commit (and the operator's manual remediation): the stamp is gone,
+the entries are still there. -/
+def delStampW (d : DB) : DB := { d with stamp := none }
+
+/-- the batch Writes of `dropFastIndex`: the stamp delete, then the clear chunk (when non-empty). -/
+def dropWrites (db : DB) : List (DB → DB) :=
+  [delStampW] ++ (if db.fast.isEmpty then [] else [clearW])
 
 def applyWrites (db : DB) (ws : List (DB → DB)) : DB := ws.foldl (fun d w => w d) db
 
@@ -421,6 +432,8 @@ def stepWith (rule : DB → Handle → Ensure) (st : State) : Op → State × Ou
       else match rule st.db h with
         | .rebuild => (dropAll { st with db := applyWrites st.db ((rebuildWrites st.db h).take n) }, .crashed)
         | _ => (dropAll st, .crashed)
+  | .delstamp => (dropAll { st with db := delStampW st.db }, .crashed)
+  | .crashimport n => (dropAll { st with db := applyWrites st.db ((dropWrites st.db).take n) }, .crashed)
   | .dump => (st, .dumped st.db)
   | .stress => (st, .stress)
 
